@@ -1334,7 +1334,7 @@ def run(ctx):
 
             # ---------------- (b) documents, (c) malformed ----------------------------------------------
             ndocs = 480 if ctx.quick else 12000
-            nmal = 16000 if ctx.quick else 400000
+            nmal = 16000 if ctx.quick else 200000
             per = max(1, ndocs // (NPROC * 3))
             jobs = []
             i = 0
